@@ -286,6 +286,7 @@ ThreadRec *self() {
     return tSelf;
 }
 
+static inline ThreadRec *selfIfRegistered() { return tSelf; }
 ThreadRec *thread(int index) { return &table()[index]; }
 int threadCount() { return highWater.load(); }
 
@@ -326,7 +327,7 @@ int parkedOn(const void *base, size_t len) {
         if (!r.used.load() || r.finished.load()) continue;
         int p = r.park.load();
         uintptr_t a = (uintptr_t) r.parkAddr.load();
-        if ((p == CondPre || p == CondBlocked) && a >= lo && a < hi) ++n;
+        if ((p == CondPre || p == CondBlocked) && ((a >= lo && a < hi) || r.scope.load(std::memory_order_relaxed))) ++n;
     }
     return n;
 }
@@ -374,8 +375,12 @@ extern "C" {
 
 int pthread_mutex_lock(pthread_mutex_t *m) {
     resolve();
-    if (!watched(m)) return realLock(m);
-    ThreadRec *t = self();
+    ThreadRec *t = nullptr;
+    if (!watched(m)) {
+        t = selfIfRegistered();
+        if (!t || !t->scope.load(std::memory_order_relaxed)) return realLock(m);
+    }
+    if (!t) t = self();
     gEvents.fetch_add(1, std::memory_order_relaxed);
     maybeDelay(t, gDelays.beforeLock, gDelays.maxUs, gCounters.beforeLock);
     t->parkAddr.store(m, std::memory_order_relaxed);
@@ -388,7 +393,12 @@ int pthread_mutex_lock(pthread_mutex_t *m) {
 int pthread_mutex_unlock(pthread_mutex_t *m) {
     resolve();
     int r = realUnlock(m);
-    if (watched(m)) {
+    bool w = watched(m);
+    if (!w) {
+        ThreadRec *t = selfIfRegistered();
+        w = t && t->scope.load(std::memory_order_relaxed);
+    }
+    if (w) {
         gEvents.fetch_add(1, std::memory_order_relaxed);
         maybeDelay(self(), gDelays.afterUnlock, gDelays.maxUs, gCounters.afterUnlock);
     }
@@ -398,7 +408,7 @@ int pthread_mutex_unlock(pthread_mutex_t *m) {
 int pthread_cond_wait(pthread_cond_t *c, pthread_mutex_t *m) {
     resolve();
     ThreadRec *t = self();
-    bool w = watched(c);
+    bool w = watched(c) || t->scope.load(std::memory_order_relaxed);
     gEvents.fetch_add(1, std::memory_order_relaxed);
     gCounters.condWaits.fetch_add(1, std::memory_order_relaxed);
     uint64_t s = stamp();   // taken while the caller still holds m
@@ -412,6 +422,16 @@ int pthread_cond_wait(pthread_cond_t *c, pthread_mutex_t *m) {
     t->park.store(CondPre);
     // the caller has evaluated its predicate and still holds the mutex: "about to block"
     if (w) maybeDelay(t, gDelays.condEntry, gDelays.maxUs, gCounters.condEntry);
+    if (w && gDelays.spurious && delaysOn.load(std::memory_order_relaxed) && xs(t->rng) % 1000 < gDelays.spurious) {
+        // spurious wake-up: the wait gives the mutex up, comes back without a notification and holds the mutex again
+        gCounters.spurious.fetch_add(1, std::memory_order_relaxed);
+        realUnlock(m);
+        doDelay(t, gDelays.maxUs);
+        realLock(m);
+        t->park.store(None);
+        gEvents.fetch_add(1, std::memory_order_relaxed);
+        return 0;
+    }
     t->park.store(CondBlocked);
     int r = realCondWait(c, m);
     t->park.store(None);
